@@ -64,6 +64,10 @@ def strings_HasPrefix (x p : Str) : Bool := p.isPrefixOf x
 
 def strings_HasSuffix (x p : Str) : Bool := p.isSuffixOf x
 
+/-- `strings.TrimSuffix` -/
+def strings_TrimSuffix (x suf : Str) : Str :=
+  if suf.isSuffixOf x then x.take (x.length - suf.length) else x
+
 /-- `strings.Contains` -/
 def strings_Contains : Str → Str → Bool
   | [], sub => sub.isEmpty
